@@ -36,7 +36,10 @@ U3 == {Bin(o, l, r) : o \in BinOps, l \in U2, r \in U0} \cup {Bin(o, l, r) : o \
 Rich == {A, S, LongString("ls"), Int("1"), Float("1.5"), RTime("2s"), Bool(TRUE), Bool(FALSE), Prefix("-", Int("1")),
          Prefix("-", A), Not(A), Postfix("%", Int("50")), CallX("f", <<>>), CallX("std.g", <<A>>), CallX("f", <<A, S>>),
          IfX(A, S, B), IfX(Bin("==", A, S), Bin("juxt", S, A), CallX("f", <<S>>)), Group(A),
-         CallX("f", <<Bin("&&", A, B), IfX(A, S, S)>>)}
+         CallX("f", <<Bin("&&", A, B), IfX(A, S, S)>>),
+         \* a construct nested in itself
+         IfX(IfX(A, B, A), IfX(B, S, A), IfX(A, S, IfX(B, S, S))), CallX("f", <<CallX("g", <<CallX("h", <<A>>), S>>)>>),
+         Group(Group(Bin("==", A, S))), Not(Not(A)), Prefix("-", Prefix("-", Int("1")))}
 R1 == {Bin(o, l, r) : o \in BinOps, l \in Rich, r \in Rich}
 
 ExprCtx(e, ctx) ==
@@ -97,9 +100,9 @@ CaseSets ==
   \cup {<<CaseC(Eq("a"), <<IfS(A, Block(<<Esi>>), <<>>, None), Brk>>), CaseC(Eq("a b"), <<Brk>>)>>}
 Switches == {SwitchS(c, cs) : c \in {A, CallX("f", <<A>>), Bool(TRUE), String("s")}, cs \in CaseSets}
 \* nesting depth 2: an if / switch inside the arms of an if
-Nested == {IfS(A, Block(<<inner>>), <<Elif("elsif", B, Block(<<inner>>))>>, Block(<<inner, Esi>>)) :
-             inner \in {IfS(B, Block(<<Esi>>), <<>>, Block(<<>>)), SwitchS(A, <<CaseC(Eq("a"), <<Brk>>)>>),
-                        Block(<<LabelS("l:"), GotoS("l")>>)}}
+Inners == {IfS(B, Block(<<Esi>>), <<>>, Block(<<>>)), SwitchS(A, <<CaseC(Eq("a"), <<Brk>>)>>), Block(<<LabelS("l:"), GotoS("l")>>)}
+Nested == {IfS(A, Block(<<inner>>), <<Elif("elsif", B, Block(<<inner>>))>>, Block(<<inner, Esi>>)) : inner \in Inners}
+          \cup {SwitchS(A, <<CaseC(Eq("a"), <<inner, Ft>>), CaseC(None, <<inner, inner, Brk>>)>>) : inner \in Inners}
 Stmts == Simples \cup Ifs0 \cup Switches \cup Nested
 InSub(ss) == Vcl(<<SubD("vcl_recv", <<>>, None, Block(ss))>>)
 StmtCases == {[fam |-> "stmt", x |-> st] : st \in Stmts}
@@ -108,6 +111,12 @@ OrderPool == {SetS("req.http.X", "=", S), UnsetS("req.http.X"), CallS("f", <<>>,
               ValueS("log", S), ReturnS(None, FALSE), IfS(A, Block(<<>>), <<>>, None), LabelS("l:"), FCallS("f", <<>>),
               IncludeS("m", FALSE), Block(<<>>), DeclareS("var.v", "STRING", None), ErrorS(Int("503"), None)}
 PairCases == {[fam |-> "order", x |-> <<s1, s2>>] : s1 \in OrderPool, s2 \in OrderPool}
+
+\* long blocks over a small pool: what the parser carries from one statement to the next (the two-token window,
+\* prevToken, comments waiting for a node) only shows several statements later
+SeqPool == {SetS("req.http.X", "=", Bin("juxt", S, A)), IfS(A, Block(<<Esi>>), <<Elif("else if", B, Block(<<>>))>>, None),
+            SwitchS(A, <<CaseC(Eq("a"), <<Brk>>)>>), LabelS("l:"), ReturnS(Ident("lookup"), TRUE), FCallS("f", <<A>>)}
+Seq4Cases == {[fam |-> "seq", x |-> <<s1, s2, s3, s4>>] : s1 \in SeqPool, s2 \in SeqPool, s3 \in SeqPool, s4 \in SeqPool}
 
 \* ---- declarations
 P1 == Prop("host", String("h"))   P2 == Prop("connect_timeout", RTime("1s"))   P3 == Prop("port", String("80"))
@@ -137,7 +146,7 @@ DeclPool == {AclD("a", <<>>), BackendD("b", <<P1>>), DirectorD("d", "random", <<
 TripleCases == {[fam |-> "declorder", x |-> <<d1, d2, d3>>] : d1 \in DeclPool, d2 \in DeclPool, d3 \in DeclPool}
 
 Cases == (IF Families \cap {"pairs", "triples", "atoms"} # {} THEN ExprCases ELSE {})
-         \cup (IF "stmts" \in Families THEN StmtCases \cup PairCases ELSE {})
+         \cup (IF "stmts" \in Families THEN StmtCases \cup PairCases \cup Seq4Cases ELSE {})
          \cup (IF "decls" \in Families THEN DeclCases \cup TripleCases ELSE {})
 
 \* A case is kept as its selector x (small); the program and the written expression are derived from it.
@@ -145,6 +154,8 @@ CaseE(c)   == Paren(c.x[1], c.x[2])                                   \* express
 CaseVcl(c) == CASE c.fam = "expr"      -> Vcl(<<ExprCtx(CaseE(c), c.x[3])>>)
                 [] c.fam = "stmt"      -> InSub(<<c.x>>)
                 [] c.fam = "order"     -> InSub(<<c.x[1], c.x[2], c.x[1]>>)
+                [] c.fam = "seq"       -> Vcl(<<SubD("vcl_recv", <<>>, None, Block(<<c.x[1], c.x[2]>>)),
+                                               SubD("vcl_fetch", <<>>, None, Block(<<c.x[3], c.x[4], c.x[1]>>))>>)
                 [] c.fam = "decl"      -> Vcl(<<c.x>>)
                 [] c.fam = "declorder" -> Vcl(c.x)
 \* legality is a property of what is written (parentheses included): x (y) is a call, not a concatenation
